@@ -36,6 +36,7 @@ type PropCfg struct {
 	Exempt     map[string]string `json:"exempt"`  // handler (short name) -> reason why it carries no obligation of this property
 	Functions  []string     `json:"functions"`  // additional functions that must be under contract and verified
 	Bounded    []string     `json:"bounded"`    // names of bounded stand-ins (thorough tier)
+	Det        *DetCfg      `json:"determinism"` // C10: static effect/determinism analysis
 	DeleteOnly []string     `json:"delete_only"` // tables in which step functions may delete rows (static obligation over the SSA call graph)
 	Lemmas     []string     `json:"lemmas"`     // SMT-LIB lemma files (spec/lemmas): every check-sat must be unsat
 	Explain    string       `json:"explanation"`
@@ -409,6 +410,27 @@ func cmdCheck(args []string) {
 			stepNames = append(stepNames, n)
 		}
 		sort.Strings(stepNames)
+		if cfg.Det != nil {
+			checked, finds, listed := determinismCheck(p, cfg, steps)
+			bad := map[string][]string{}
+			for _, f := range finds {
+				bad[f.Func] = append(bad[f.Func], f.What)
+			}
+			for _, fnn := range checked {
+				nObl++
+				if len(bad[fnn]) == 0 {
+					nDis++
+					obls = append(obls, oblReport{Name: "static.deterministic", Func: fnn, Result: "unsat", Solver: "static"})
+				} else {
+					obls = append(obls, oblReport{Name: "static.deterministic", Func: fnn, Result: "sat", Solver: "static"})
+					problem("refuted", fnn, "static.deterministic", strings.Join(bad[fnn], "; "), nil, nil)
+				}
+			}
+			for k, why := range listed {
+				trusted["listed exception: "+k+" -- "+why] = true
+			}
+			funcs = append(funcs, funcReport{Func: fmt.Sprintf("%d functions reachable from the consensus entry points of %s", len(checked), m.Dir), Status: "static analysis", Role: "determinism", Obls: len(checked)})
+		}
 		if len(cfg.DeleteOnly) > 0 {
 			allowed := map[string]bool{}
 			for _, t := range cfg.DeleteOnly {
